@@ -52,9 +52,9 @@ func C03() *vk.Check {
 			return p
 		},
 		NonTrivial: func(s *sessStats) bool { return s.Moves >= 2 }}
-	return &vk.Check{ID: "C03", Level: "exploration", MinEvaluations: 300, Shards: func(string) int { return 16 }, Run: func(c *vk.Ctx) { mc.run(c); c03Metamorphic(c) },
+	return &vk.Check{ID: "C03", Level: "exploration", MinEvaluations: 300, Shards: func(string) int { return 16 }, Run: func(c *vk.Ctx) { mc.run(c); c03Metamorphic(c); c03LongTables(c) },
 		Rule: "reference-model monitor: generated programs with 1..8 INCMP lines per HALT over a small selector alphabet (duplicates frequent), wildcard at any position, named and relative targets, non-INCMP instructions interleaved, several HALTs per node; inputs = selectors of the node, of other nodes, junk, empty. After every request: the nodes fetched (GetCode log, in order) and the resulting position equal the model's first-match-once routing; with no match the session is on _catch and the page shows \"invalid input: '<input>'\"; '<' on page 0 counts as no match. distinct = hash(app, history, driver); non-trivial = at least 2 moves. " +
-			"(b) model-free metamorphic oracle: a generated session is served to some HALT, its stored pending bytecode is decoded, and for an input x whose first matching INCMP is at position m the stored code is rewritten (as client code could) — a non-matching INCMP before m deleted, two of them swapped, extra INCMP lines (same selector, wildcard, other) inserted between m and the next HALT — and x is sent to a copy of the session: output, continue flag and position must equal the unmodified copy's.",
+			"(b) model-free metamorphic oracle: a generated session is served to some HALT, its stored pending bytecode is decoded, and for an input x whose first matching INCMP is at position m the stored code is rewritten (as client code could) — a non-matching INCMP before m deleted, two of them swapped, extra INCMP lines (same selector, wildcard, other) inserted between m and the next HALT — and x is sent to a copy of the session: output, continue flag and position must equal the unmodified copy's. (c) routing tables of more than 2^16 (thorough: 2^17) INCMP lines behind one HALT, input matching the last lines, the first, none, a duplicated selector; lock-step model on three drivers.",
 		Assumptions: []string{modelAssumption}}
 }
 
